@@ -2,6 +2,7 @@ CONSTANTS
   MaxSize = 6
   StartSet <- StartsLarge
   MaxLen = 9
+  MaxLoops = 2
   TableFile = ""
   HonourStart = TRUE
 SPECIFICATION Spec
